@@ -83,12 +83,15 @@ fn case(srv: &mut Srv, seed: u64, res: &mut CaseResult) -> R<()> {
     let dup_of = gens[0].clone();
     let dup = srv.must_append(&format!("{}.spawn", dup_of.name), dup_of.ctx, Some(b"\"other\""), None, None)?;
     // duplex generators
+    let n_tokens = 3 + rng.below(5);
     let n_dup = 1 + rng.below(2);
     let mut duplex: Vec<(String, Scru128Id, Frame, Vec<String>)> = vec![];
     for i in 0..n_dup {
         let name = format!("dx{}", i);
         let ctx = ctxs[rng.below(2)];
-        let sp = srv.must_append(&format!("{}.spawn", name), ctx, Some(b"lines | each {|x| $\"echo:($x)\"}"), Some(json!({"duplex": true})), None)?;
+        // the first duplex generator ends after `n_tokens` lines, so it stops and is started again
+        let expr = if i == 0 { format!("lines | first {} | each {{|x| $\"echo:($x)\"}}", n_tokens) } else { "lines | each {|x| $\"echo:($x)\"}".to_string() };
+        let sp = srv.must_append(&format!("{}.spawn", name), ctx, Some(expr.as_bytes()), Some(json!({"duplex": true})), None)?;
         duplex.push((name, ctx, sp, vec![]));
     }
     // wait for the duplex instances to be running, then send tokens interleaved with other traffic
@@ -98,7 +101,6 @@ fn case(srv: &mut Srv, seed: u64, res: &mut CaseResult) -> R<()> {
         res.inconclusive = Some("duplex generators did not start within 20 s".into());
         return Ok(());
     }
-    let n_tokens = 3 + rng.below(5);
     for t in 0..n_tokens {
         for d in duplex.iter_mut() {
             let tok = format!("{}-tok{}-{}", d.0, t, seed % 997);
@@ -115,6 +117,22 @@ fn case(srv: &mut Srv, seed: u64, res: &mut CaseResult) -> R<()> {
         }
         if rng.chance(500) {
             std::thread::sleep(Duration::from_millis(10));
+        }
+    }
+    // second lifecycle of the finite duplex generator: after its stop and restart, fresh tokens only
+    {
+        let (n0, id0) = (duplex[0].0.clone(), duplex[0].2.id.to_string());
+        let restarted = srv.wait(Duration::from_secs(20), |log| log.iter().filter(|f| f.topic == format!("{}.start", n0) && meta_str(f, "source_id") == Some(&id0)).count() >= 2)?;
+        if restarted {
+            for t in 0..n_tokens {
+                let tok = format!("{}-second{}-{}", duplex[0].0, t, seed % 997);
+                let (name, ctx) = (duplex[0].0.clone(), duplex[0].1);
+                srv.must_append(&format!("{}.send", name), ctx, Some(format!("{}\n", tok).as_bytes()), None, None)?;
+                duplex[0].3.push(tok);
+            }
+            res.count("duplex_second_lifecycles", 1);
+        } else {
+            res.inconclusive = Some("finite duplex generator was not restarted within 20 s".into());
         }
     }
     // observe at least three lifecycles of the restarting generators (1 s between stop and restart)
